@@ -7,6 +7,7 @@ import KonstVerif.Spec.OptRes
     res.<macro> <ok:v|err:e> <form>                                    -> <value>|calls:<n>
     try.<macro> <value> <form>                                         -> ret:<residual>|calls:<n> / val:<v>|calls:<n>
     rebind.<macro> <ok:v1,..,vn | err:e:n> <[b:]kinds | ->             -> accept:<flow>:<slot;..> / reject
+    rebind.<macro> <ok:v1,..,vn | err:e:n> o:<place>,..                -> accept:<flow>:<xs>;<tp>;<arr>;<lets|-> / reject
     mm.<macro> <form> <akey>:<aid> <bkey>:<bid>                        -> id of the returned argument
   answer: model<TAB>spec.  The closure library below is the one of the generated programs' prelude.
 -/
@@ -232,10 +233,131 @@ def showRebind (u : OptRes.UserPat) (n : Nat) (hasCode : Bool) : OptRes.RebindOu
   | .skip => "accept:skip:" ++ showSlots u n false []
   | .ok ws => "accept:ok:" ++ showSlots u n hasCode ws
 
+/-! ### order-observing rebind requests (`o:<place>,<place>,..`)
+
+  The generated program's test bench is a small store: `x0 x1 x2 : i64`, `tp : (i64, i64)`,
+  `arr : [i64; 8]`; `ix(v) = v.rem_euclid(8)`.  One descriptor per listed pattern:
+    xN  place `xN`                 aN  place `arr[ix(xN)]`      (xN as bound where the statement runs)
+    t0/t1  place `tp.0` / `tp.1`   at  place `arr[ix(tp.0)]`
+    lN  `let xN`                   LN  `let xN: i64`            (shadows the outer xN from there on)
+    w   `_`
+  The ordered write list of the model (`RebindOut.ok ws`) is run on the store with `runWrites`;
+  the oracle side is `Spec.OptRes.assignSeq` (`p0 = t.0; p1 = t.1; …`). -/
+inductive PlaceD where
+  | x (n : Nat) | a (n : Nat) | t (n : Nat) | at | l (n : Nat) | tl (n : Nat) | w
+deriving Repr, DecidableEq
+
+structure Store where
+  xs : List Int             -- x0 x1 x2 (outer variables)
+  lets : List (Option Int)  -- `let xN` bindings made by the walker (shadow the outer xN)
+  tp : Int × Int
+  arr : List Int
+deriving Repr
+
+/-- initial values of the generated programs (vlib/progs/c19.py, `ORDER_DECL`) -/
+def store0 : Store :=
+  ⟨[96, 101, 104], [none, none, none], (109, 110), [-200, -201, -202, -203, -204, -205, -206, -207]⟩
+
+def parsePlaceD (s : String) : Option PlaceD :=
+  let var (c : Char) : Option Nat := if c = '0' then some 0 else if c = '1' then some 1 else if c = '2' then some 2 else none
+  match s.toList with
+  | ['w'] => some .w
+  | ['a', 't'] => some .at
+  | ['x', c] => (var c).map .x
+  | ['a', c] => (var c).map .a
+  | ['l', c] => (var c).map .l
+  | ['L', c] => (var c).map .tl
+  | ['t', '0'] => some (.t 0)
+  | ['t', '1'] => some (.t 1)
+  | _ => none
+
+/-- the `__priv_assign_tuple` arm a descriptor's tokens take -/
+def PlaceD.kind : PlaceD → OptRes.PatKind
+  | .x _ => .place          -- one identifier: `$e:tt`
+  | .a _ | .t _ | .at => .exprPlace   -- several token trees: `$e:expr`
+  | .l _ => .letP
+  | .tl _ => .typedLet
+  | .w => .wild
+
+def ix (v : Int) : Nat := (v % 8).toNat
+
+/-- the value `xN` denotes where a statement runs: the walker's `let xN` if there is one already -/
+def Store.readVar (s : Store) (n : Nat) : Int := (s.lets.getD n none).getD (s.xs.getD n 0)
+
+/-- `<place> = v;` / `let xN = v;` / `let _ = v;` on the store (the place expression is evaluated in `s`) -/
+def Store.assign (s : Store) (d : PlaceD) (v : Int) : Store :=
+  match d with
+  | .x n => { s with xs := s.xs.set n v }
+  | .a n => { s with arr := s.arr.set (ix (s.readVar n)) v }
+  | .t 0 => { s with tp := (v, s.tp.2) }
+  | .t _ => { s with tp := (s.tp.1, v) }
+  | .at => { s with arr := s.arr.set (ix s.tp.1) v }
+  | .l n | .tl n => { s with lets := s.lets.set n (some v) }
+  | .w => s
+
+/-- resolution of the `pos`-th listed pattern; `none` = something the bench cannot express
+    (a whole-tuple value in a scalar cell) -/
+def writeD (ds : List PlaceD) (s : Option Store) (l : OptRes.Lhs) (v : OptRes.Val) : Option Store :=
+  match s, ds[l.pos]?, v with
+  | some s, some d, .scalar v => some (s.assign d v)
+  | _, _, _ => none
+
+def showInts (l : List Int) : String := ",".intercalate (l.map toString)
+
+/-- `<x0>,<x1>,<x2>;<tp.0>,<tp.1>;<arr>;<let values, by listed position | ->` -/
+def showStore (ds : List PlaceD) (letsVisible : Bool) (s : Store) : String :=
+  let lets := ds.filterMap fun d => match d with
+    | .l n | .tl n => some (toString ((s.lets.getD n none).getD 0))
+    | _ => none
+  let ls := if letsVisible && !lets.isEmpty then ",".intercalate lets else "-"
+  showInts s.xs ++ ";" ++ showInts [s.tp.1, s.tp.2] ++ ";" ++ showInts s.arr ++ ";" ++ ls
+
+def showRebindOrder (ds : List PlaceD) (hasCode : Bool) : OptRes.RebindOut → String
+  | .reject => "reject"
+  | .ret e => s!"accept:ret:{e}:" ++ showStore ds false store0
+  | .skip => "accept:skip:" ++ showStore ds false store0
+  | .ok ws =>
+    match OptRes.runWrites (writeD ds) (some store0) ws with
+    | some s => "accept:ok:" ++ showStore ds hasCode s
+    | none => "unsupported"
+
+/-- a variable is either assigned as a place (`xN`) or `let`-bound by the walker, not both (the
+    binding is immutable); 2..=6 patterns -/
+def orderWellFormed (ds : List PlaceD) : Bool :=
+  decide (2 ≤ ds.length ∧ ds.length ≤ 6) &&
+  [0, 1, 2].all fun n => !(ds.contains (.x n) && (ds.contains (.l n) || ds.contains (.tl n)))
+
+def handleRebindOrder (isTry hasCode : Bool) (r : Except Int (List Int)) (n : Nat) (body : String) :
+    Option (String × String) := do
+  let ds ← (body.splitOn ",").mapM parsePlaceD
+  if !orderWellFormed ds then none else
+  let u : OptRes.UserPat := ⟨false, ds.map PlaceD.kind⟩
+  let out := if isTry then OptRes.tryRebind u n false r else OptRes.rebindIfOk u n false r
+  let model := showRebindOrder ds hasCode out
+  let spec :=
+    if ds.length = n then
+      match r with
+      | .error e => showRebindOrder ds hasCode (if isTry then .ret e else .skip)
+      | .ok vs =>
+        let targets : List OptRes.Lhs := u.pats.zipIdx.map fun (kd, j) => ⟨j, kd⟩
+        match Spec.OptRes.assignSeq (writeD ds) OptRes.payloadVal OptRes.Val.scalar (some store0) targets vs with
+        | some s => "accept:ok:" ++ showStore ds hasCode s
+        | none => "unsupported"
+    else "?"
+  some (model, spec)
+
 def handleRebind (mac : String) (args : List String) : Option (String × String) :=
   match args with
   | [pl, ks] => do
     let (r, n) ← parsePayload pl
+    if ks.startsWith "o:" then
+      let (isTry, hasCode) ← match mac with
+        | "try_rebind" => some (true, true)
+        | "rebind_if_ok" => some (false, true)
+        | "rebind_if_ok_nc" => some (false, false)
+        | _ => none
+      handleRebindOrder isTry hasCode r n (ks.drop 2).toString
+    else
     let u ← parseKinds ks
     let k := u.pats.length
     -- the generator annotates typed patterns with the slot type: the payload type iff there is a
